@@ -4,8 +4,8 @@
    (interceptors, checks, id interceptor: plain functions), arbitrary clock, and any strict total
    order on ids; they are instantiated with the flat algebra of Resource/Flat.v for the
    correspondence (C01_instance_* shows the hypotheses hold there). *)
-From SC Require Import Base.Prelude Resource.Impl Resource.Spec Resource.ImplProofs Resource.SpecProofs
-  Resource.Pull04Proofs Resource.Flat Resource.FlatProofs Resource.Judge Resource.Tween Resource.TweenProofs.
+From SC Require Import Base.Prelude Msg.Msg Resource.Impl Resource.Spec Resource.ImplProofs Resource.SpecProofs
+  Resource.Pull04Proofs Resource.Flat Resource.FlatProofs Resource.Judge Resource.JudgeProofs Resource.Tree Resource.TreeJudge Resource.TreeJudgeProofs Resource.Tween Resource.TweenProofs.
 
 Section C01.
   Variable M : Type.
@@ -103,6 +103,31 @@ Section C01.
     (forall chk, wo_check o = Some chk -> chk old = None).
   Proof. intros. eapply change_fn_success_needs_both; eauto. Qed.
 
+  (* a Value is a single register: a Set either fails (validation first, then the value
+     preconditions against the stored value) changing nothing and emitting nothing, or it stores
+     exactly the new value computed from the stored one, returns it, emits exactly one event
+     carrying it and the write's time, and the next Get returns it *)
+  Theorem C01_value_is_register : forall (s : vstate M) msg (o : wopts M writer) s' r ev,
+    spec_v_set m_eqb m_empty w_validate w_merge clock_at s msg o = (s', r, ev) ->
+    (exists code, r = inr code /\ s' = s /\ ev = [] /\
+       (w_validate (wo_writer o) = Some code \/
+        (w_validate (wo_writer o) = None /\ precondition m_eqb o (v_val s) = Some code))) \/
+    (exists nv t, r = inl nv /\ w_validate (wo_writer o) = None /\ precondition m_eqb o (v_val s) = None /\
+       nv = new_value m_empty w_merge o msg (v_val s) /\
+       t = match wo_time o with Some t0 => t0 | None => clock_at (v_reads s) end /\
+       ev = [mkVE nv t] /\ v_val s' = Some nv /\ v_time s' = t /\
+       v_get r_filter s' None = Some nv /\
+       (forall k, v_get r_filter s' (Some k) = Some (r_filter k nv))).
+  Proof.
+    intros s msg o s' r ev. unfold spec_v_set.
+    destruct (w_validate (wo_writer o)) as [c|] eqn:V.
+    { intros H. inversion H. subst. left. exists c. auto. }
+    destruct (precondition m_eqb o (v_val s)) as [c|] eqn:P.
+    { intros H. inversion H. subst. left. exists c. auto 6. }
+    unfold write_time. destruct (wo_time o) as [t0|]; intros H; inversion H; subst; right;
+      eexists _, _; repeat split; reflexivity.
+  Qed.
+
   (* NewCollection(WithInitialRecord ...): sorted contents holding exactly the given records, each
      stamped with the construction-time clock reading *)
   Theorem C01_initial_records : forall (records : list (string * M)),
@@ -117,6 +142,7 @@ End C01.
 Print Assumptions C01_preconditions_all_consulted.
 Print Assumptions C01_change_fn_success_needs_both.
 Print Assumptions C01_initial_records.
+Print Assumptions C01_value_is_register.
 Print Assumptions C01_collection_refines_reference.
 Print Assumptions C01_value_refines_reference.
 Print Assumptions C01_failed_call_is_noop.
@@ -169,10 +195,99 @@ Example C01_nonvacuous_both_preconditions :
   map fst (run (CEq Fa 1 7)) = [VRSet (inl (mkF 2 0 0)); VRGet (Some (mkF 2 0 0))].
 Proof. vm_compute. split; reflexivity. Qed.
 
+(* non-vacuity of the register theorem: both disjuncts occur (a Set refused by its expected value,
+   the same Set accepted once the value is there) *)
+Example C01_nonvacuous_value_register :
+  let o := mkFWO None None None None false (Some (mkF 1 0 0)) false None false None None false false false false in
+  let set s := spec_v_set fmsg_eqb fzero fw_validate fw_merge fclock s (mkF 2 0 0) (to_wopts None o) in
+  (let '(s', r, ev) := set (v_init fclock None) in r = inr 9 /\ s' = v_init fclock None /\ ev = []) /\
+  (let '(s', r, ev) := set (v_init fclock (Some (mkF 1 0 0))) in
+   r = inl (mkF 2 0 0) /\ v_get fr_filter s' None = Some (mkF 2 0 0) /\ ev = [mkVE (mkF 2 0 0) 1010]).
+Proof. vm_compute. auto. Qed.
+
 Example C01_nonvacuous_initial_records :
   c_list fr_filter (c_new fclock str_ltb [("b"%string, mkF 2 0 0); ("a"%string, mkF 1 0 0)]) None None =
   [("a"%string, mkF 1 0 0); ("b"%string, mkF 2 0 0)].
 Proof. vm_compute. reflexivity. Qed.
+
+(* soundness of the judge of the correspondence (flat algebra; Resource/JudgeProofs.v): whatever the
+   call sequence, an observation that agrees with the code-shaped model satisfies EVERY clause of
+   [C01_ok] -- the comparison with the plain reference (by the refinement theorem), the direct
+   clauses on the observed trace (every List sorted by id; a failed write leaves the next full List
+   equal to the previous one) and the generated-id clauses (non-empty, reported exactly once, not a
+   key of the last full List seen through the id interceptor, found by the following Get).  So a
+   verdict "predicate fails" always comes with "model disagrees": the clauses of the judge are
+   consequences of the model, for every sequence and every observation, not facts about the sampled
+   cases.  [C01_guard] (no Delete between the caller's last full List and a write that may generate
+   an id: the generators list after every write) is needed for the "not a key of the last List"
+   clause only; [C01_judge_guard_needed] is the agreeing observation that clause rejects without it. *)
+Theorem C01_judge_sound : forall c, agrees c = true -> C01_guard c = true -> C01_ok c = true.
+Proof. exact judge01_sound. Qed.
+Print Assumptions C01_judge_sound.
+
+(* the two families of direct clauses on their own, for an arbitrary start state of the run *)
+Theorem C01_judge_direct_clauses : forall i w steps s s' outs last dirty,
+  run (f_spec_step i) s (map (to_cop w) (map fst steps)) = (s', outs) ->
+  trace_matches outs (map snd steps) = true ->
+  sorted str_ltb (c_items s) ->
+  (dirty = false -> forall l0, last = Some l0 -> l0 = c_list fr_filter s None None) ->
+  direct_ok last dirty steps = true.
+Proof. exact direct_ok_sound. Qed.
+Print Assumptions C01_judge_direct_clauses.
+
+Theorem C01_judge_generated_id_clauses : forall i w steps s s' outs last stale,
+  run (f_spec_step i) s (map (to_cop w) (map fst steps)) = (s', outs) ->
+  trace_matches outs (map snd steps) = true ->
+  gen_guard stale steps = true ->
+  (stale = false -> forall k, In k (map fst last) -> lookup k (c_items s) <> None) ->
+  gen_ok i last steps = true.
+Proof. exact gen_ok_sound. Qed.
+Print Assumptions C01_judge_generated_id_clauses.
+
+Example C01_judge_guard_needed :
+  agrees guard_witness = true /\ C01_guard guard_witness = false /\ C01_ok guard_witness = false.
+Proof. exact guard_witness_facts. Qed.
+
+(* non-vacuity: an agreeing, guarded observation with a generated id (probed by Get), a failed write
+   between two full Lists, a Delete and a second generation of the same id after a fresh List *)
+Example C01_judge_sound_nonvacuous :
+  agrees sound_witness = true /\ C01_guard sound_witness = true /\ C01_ok sound_witness = true /\
+  judge01 sound_witness = 0.
+Proof. vm_compute. auto. Qed.
+
+(* the converse and the resulting exactness of the verdict: on the two case kinds of C01 (collection
+   and value sequences) "the model agrees" and "the predicate holds" are the same boolean, so the
+   judge answers 0 or 3 -- never 1 (mismatch only) or 2 (predicate fails though the model agrees) *)
+Theorem C01_judge_exact : forall c, C01_guard c = true ->
+  match c with
+  | CaseC _ _ _ | CaseV _ _ _ => agrees c = C01_ok c /\ (judge01 c = 0 \/ judge01 c = 3)
+  | _ => C01_ok c = true
+  end.
+Proof. exact judge01_exact. Qed.
+Print Assumptions C01_judge_exact.
+
+(* full-message cases (Resource/TreeJudge.v): the sortedness clause of [C01T_ok] follows from its
+   reference clause, for every call sequence over a collection constructed with initial records
+   (distinct ids; [records = []] is the empty collection of TCaseC) *)
+Theorem C01_tree_lists_sorted_clause : forall i ty resw records steps s' outs,
+  NoDup (map fst records) ->
+  run (t_spec_step i) (c_new fclock str_ltb records) (map (to_tcop ty resw) (map fst steps)) = (s', outs) ->
+  ttrace outs (map snd steps) = true ->
+  t_lists_sorted steps = true.
+Proof. exact t_lists_sorted_records. Qed.
+Print Assumptions C01_tree_lists_sorted_clause.
+
+Example C01_tree_lists_sorted_nonvacuous :
+  let records := [("b"%string, vempty); ("a"%string, vempty)] in
+  let steps := [(TList None, UList [("a"%string, vempty); ("b"%string, vempty)])] in
+  NoDup (map fst records) /\
+  ttrace (snd (run (t_spec_step None) (c_new fclock str_ltb records) (map (to_tcop "x" None) (map fst steps))))
+         (map snd steps) = true /\
+  C01T_ok (TCaseCR "x" None None records steps) = true /\
+  t_lists_sorted [(TList None, UList [("b"%string, vempty); ("a"%string, vempty)])] = false.
+Proof.
+  split; [repeat constructor; simpl; intuition discriminate|]. vm_compute. auto.
+Qed.
 
 (* auxiliary (outside the statement of C01, see notes/C01.md): pkg/resource/tween.go's update
    validation, the remaining pure function of the package, accepts exactly "no tween, or zero
